@@ -15,6 +15,7 @@ def body(ctx):
     ctx.assume("low water mark <= high water mark")
     viol = registration(ctx, prog)
     slot_bound(ctx, prog, viol)
+    tuning_builders(ctx, prog)
     ctx.replay_timeout = 180
     # "transmitted exactly once and in order" through a stall: the write loop under every short-write / would-block pattern and the
     # hand-over of whole messages into the buffer (the obligations of C01, decided here as well)
@@ -116,6 +117,46 @@ def allocate(ctx, prog, viol):
         m = ctx.decide(f"c18.allocate#{n}", s.pc, z3.And(*c), group='a channel allocated while throttled is registered under its own token and immediately de-registered; otherwise it stays registered')
         if m is not None:
             viol.append(('allocate', ctx.explain(m, c)[:3]))
+
+
+def tuning_builders(ctx, prog):
+    """the tuning a connection is opened with is the tuning the user spelled out: each builder method of ConnectionTuning sets its own
+    field and keeps the others, in whatever order they are chained"""
+    ex = io_executor(ctx, prog)
+    names = prog.types.fields('ConnectionTuning')
+    bad = []
+    for fld in names:
+        f = prog.method('ConnectionTuning', fld)
+        vals = {n_: z3.BitVec('tuning.' + n_, 64) for n_ in names}
+        t = Agg({names.index(n_): Int(vals[n_], 64, False) for n_ in names}, 'connection::ConnectionTuning', 'tuning')
+        arg = z3.BitVec('tuning.arg', 64)
+        for (s, rv) in ex.run(State(), f, [t, Int(arg, 64, False)]):
+            if isinstance(rv, Panic):
+                c = z3.BoolVal(False)
+            else:
+                c = z3.And(*[rv.fields[names.index(n_)].bv == (arg if n_ == fld else vals[n_]) for n_ in names])
+            m = ctx.decide(f"c18.tuning-builder[{fld}]", s.pc, c, group='ConnectionTuning builders set their own field and keep the others')
+            if m is not None:
+                bad.append(fld)
+    if bad:
+        ctx.report('tuning-builder', f"ConnectionTuning::{bad[0]} does not keep the other fields", {'builders': bad}, BUILDER_TEST, profiles=('dev',))
+
+
+BUILDER_TEST = r"""
+#[test]
+fn verif_replay_c18_builders() {
+    let mut bad: Vec<String> = Vec::new();
+    let orders: Vec<[u8; 3]> = vec![[0, 1, 2], [0, 2, 1], [1, 0, 2], [1, 2, 0], [2, 0, 1], [2, 1, 0]];
+    for o in orders.iter() {
+        let mut t = crate::ConnectionTuning::default();
+        for k in o.iter() { t = match k { 0 => t.mem_channel_bound(3), 1 => t.buffered_writes_high_water(32768), _ => t.buffered_writes_low_water(1024) }; }
+        if (t.mem_channel_bound, t.buffered_writes_high_water, t.buffered_writes_low_water) != (3, 32768, 1024) {
+            bad.push(format!("order={:?}:got=({},{},{})", o, t.mem_channel_bound, t.buffered_writes_high_water, t.buffered_writes_low_water));
+        }
+    }
+    if bad.is_empty() { println!("VERIF-REPLAY-OK"); } else { println!("VERIF-REPLAY-VIOLATION tuning-builder {}", bad.join(";").replace(' ', "")); }
+}
+"""
 
 
 def slot_bound(ctx, prog, viol):
